@@ -456,5 +456,19 @@ def r01_dict(ctx):
     ctx.borrow(c14.r14_dict, 'R01.10')
 
 
-RULES = [('R01.10', r01_dict), ('R01.9', r01_refused), ('R01.8', r01_frozen), ('R01.0', r01_0), ('R01.1', r01_1), ('R01.2', r01_2), ('R01.3', r01_3), ('R01.4', r01_4),
+def r01_input(ctx):
+    """Decoding an encoding leaves the encoding as it was: the bytearray bin() returned still decodes to the same message the
+    second time (shared with C02 R02.10)."""
+    from . import c02
+    ctx.borrow(c02.r02_input_untouched, 'R01.11')
+
+
+def r01_fresh(ctx):
+    """Every bytes() is a new list (shared with C02 R02.11): an encoding the caller went on to edit does not change what the
+    next message of that type encodes to."""
+    from . import c02
+    ctx.borrow(c02.r02_fresh_encoding, 'R01.12')
+
+
+RULES = [('R01.12', r01_fresh), ('R01.11', r01_input), ('R01.10', r01_dict), ('R01.9', r01_refused), ('R01.8', r01_frozen), ('R01.0', r01_0), ('R01.1', r01_1), ('R01.2', r01_2), ('R01.3', r01_3), ('R01.4', r01_4),
          ('R01.5', r01_5), ('R01.6', r01_6)]
